@@ -145,6 +145,10 @@ class Evaluator:
                 continue
             if not qual or any(t[-len(qual):] == qual for t in c.tags if len(t) >= len(qual)):
                 hits.append(i)
+        if len(hits) > 1 and getattr(rel, 'inner_width', None) is not None:
+            inner = [h for h in hits if h < rel.inner_width]
+            if inner:
+                hits = inner        # names of the inner query shadow the correlated outer row
         if len(hits) == 0:
             raise Unsupported('column %s not found in %s' % (ident, rel.cols))
         if len(hits) > 1:
@@ -384,14 +388,18 @@ class Evaluator:
             if outer is not None:
                 # correlated names resolve in the outer row after the inner columns
                 orel, orow = outer
+                n_inner = len(src.cols)
                 src = Rel(src.cols + [Col(c.name, c.tags) for c in orel.cols], [(p, cs + list(orow[1])) for p, cs in src.rows])
+                src.inner_width = n_inner
                 hidden = len(orel.cols)
             else:
                 hidden = 0
             rows = src.rows
             if q.where is not None:
                 rows = [(z3.And(p, is_true(self.expr(q.where, src, (p, cs)))), cs) for p, cs in rows]
+            iw = getattr(src, 'inner_width', None)
             src = Rel(src.cols, rows)
+            src.inner_width = iw
             has_agg = q.group_by is not None or any(self.has_aggregate(t) for t in q.targets) or (q.having is not None)
             if has_agg:
                 out = self.grouped(q, src, hidden)
@@ -514,7 +522,9 @@ class Evaluator:
                         except Unsupported:
                             if src is None:
                                 raise
-                            c = self.expr(f, Rel(src.cols, []), src.rows[idx])
+                            srel = Rel(src.cols, [])
+                            srel.inner_width = getattr(src, 'inner_width', None)
+                            c = self.expr(f, srel, src.rows[idx])
                     desc = str(ob.direction).upper() == 'DESC'
                     ks.append((c, desc))
                 keys.append(ks)
